@@ -14,7 +14,8 @@ RULE = ("schedules = cluster configuration (n=3..7 nodes, threshold cluster.Thre
         "TLC simulation of PipelineGen (n=4, one Byzantine share, 1 and 2 validators) and (b) by a seeded random generator "
         "(late nodes, duplicated/lost/reordered deliveries, Byzantine partials that differ per recipient and arrive before the "
         "honest ones, foreign share claims, conflicting re-stores, a defective local client, crashes, and 'split' schedules in "
-        "which consensus itself disagrees); executed on per-node compositions of the real components wired by the real "
+        "which consensus itself disagrees), (c) schedules in which the decisions come from the real qbft.Run driven inside the "
+        "composition (they must agree); executed on per-node compositions of the real components wired by the real "
         "core.Wire with real threshold BLS keys; distinct = distinct recorded traces")
 
 
@@ -186,6 +187,48 @@ def random_schedules(seed, count, big):
     return out
 
 
+def qbft_schedules(seed, count):
+    """The abstract Decide replaced by the real qbft.Run (harness/drv/qbftdrv): different proposals per node, some nodes
+    without a proposal, silent Byzantine members, random delivery order with loss; then the signing pipeline runs on
+    whatever the members decided.  The trace spec requires these decisions to agree."""
+    r = vlib.rng(seed, "c01/qbft")
+    out = []
+    for _ in range(count):
+        n = r.choice([4, 4, 5, 6, 7])
+        byz = r.choice(BYZ_SETS[n])
+        nv = r.choice([1, 1, 2])
+        honest = [i for i in range(1, n + 1) if i not in byz]
+        vals = list(range(1, nv + 1))
+        inputs = [r.choice(["A", "B", "A", "B", ""]) if i in honest else "" for i in range(1, n + 1)]
+        if not any(inputs):
+            inputs[honest[0] - 1] = "A"
+        cons = {"ev": "Consensus", "inst": r.randint(0, 50), "inputs": inputs, "seed": r.randrange(1 << 30),
+                "ploss": r.choice([0, 0, 2, 5]), "steps": 250 * n, "part": [], "heal": 0}
+        if r.random() < 0.5:     # a network partition during the first rounds
+            cons["part"] = r.sample(honest, len(honest) // 2)
+            cons["heal"] = r.randint(20, 120 * n)
+        steps = [config_step(r, n, byz, nv), cons]
+        signers = r.sample(honest, len(honest))
+        tail = [{"ev": "VCSign", "i": i, "vs": vals, "good": True} for i in signers]
+        pend = [{"ev": "Deliver", "k": k, "to": to} for k in range(1, len(signers) + 1) for to in honest]
+        r.shuffle(pend)
+        for b in byz:
+            for _ in range(r.randint(0, 2)):
+                pend.insert(r.randrange(len(pend) + 1),
+                            {"ev": "ByzSign", "b": b, "to": r.choice(honest),
+                             "batch": [{"v": v, "c": r.choice(["A", "B"]), "claim": b} for v in vals]})
+        # signing and delivery interleave: a delivery of an entry that does not exist yet is a lost message
+        k = 0
+        while tail or pend:
+            if tail and (not pend or r.random() < 0.35):
+                steps.append(tail.pop(0))
+            else:
+                steps.append(pend.pop(0) if r.random() < 0.8 or k == 0 else pend.pop(r.randrange(len(pend))))
+            k += 1
+        out.append(steps)
+    return out
+
+
 def directed_schedules():
     """A few hand-written corner schedules (n=4, Byzantine share 4): the foreign-root arrival after a group sits at exactly
     t (the re-fire defect of the pinned parsigdb), a two-validator batch with one refused entry that completes the other
@@ -314,15 +357,28 @@ def run(tier, seed):
         if r.violation != inv:
             raise vlib.Infra("design-spec control failed: '%s' not caught by %s: %s" % (what, inv, r.summary()))
         o.selftests.append({"control": "spec variant '%s' violates %s" % (what, inv), "rejected_as_required": True})
+    if thorough and not os.environ.get("VERIF_SKIP_MC"):
+        # n=7 with two Byzantine shares is out of reach exhaustively: random walks of the same model, all invariants
+        # evaluated in every visited state (reported separately, not as an exhaustive run)
+        r = vlib.tlc(PID, FAMILY, "PipelineMC", "PipelineMC_n7.cfg", simulate="num=4000", depth=80, seed=seed, workers=4,
+                     timeout=900)
+        if r.violation or r.error or r.timed_out:
+            raise vlib.Infra("PipelineMC_n7 simulation failed: %s\n%s" % (r.summary(), r.out[-2000:]))
+        import re
+        m = re.search(r"The number of states generated: (\d+)", r.out)
+        o.extra["simulation"] = [{"config": "PipelineMC_n7", "states_visited": int(m.group(1)) if m else 0,
+                                  "wall_s": round(r.wall, 1)}]
     # stage 1: schedules
     g1 = tlc_gen_schedules(seed, 1, 28, 600 if thorough else 120, 2500 if thorough else 130)
     g2 = tlc_gen_schedules(seed, 2, 30, 400 if thorough else 80, 1500 if thorough else 70)
     rnd = random_schedules(seed, 4000 if thorough else 360, thorough)
+    qb = qbft_schedules(seed, 800 if thorough else 40)
     # stage 2+3
     kw = dict(chunk=120)
     vlib.conformance(o, FAMILY, "PipelineTrace", trace_cfg_of, "c01", directed_schedules(), tag="directed", **kw)
     vlib.conformance(o, FAMILY, "PipelineTrace", trace_cfg_of, "c01", g1 + g2, tag="tlcgen", **kw)
     vlib.conformance(o, FAMILY, "PipelineTrace", trace_cfg_of, "c01", rnd, tag="random", **kw)
+    vlib.conformance(o, FAMILY, "PipelineTrace", trace_cfg_of, "c01", qb, tag="qbft", **kw)
     # binding negative controls on recorded traces
     tr = vlib.split_traces(vlib.read_ndjson(vlib.workdir(PID) + "/trace_tlcgen.ndjson"))
     tr = [t for t in tr if t[0]["nv"] == 1]
@@ -332,7 +388,7 @@ def run(tier, seed):
     if len(o.selftests) < (0 if os.environ.get("VERIF_SKIP_MC") else len(CONTROLS)) + len(muts) and not o.violations:
         raise vlib.Infra("binding self-test: some negative control found no applicable trace")
     nem = 0
-    for tag in ("tlcgen", "random"):
+    for tag in ("tlcgen", "random", "qbft"):
         for t in vlib.split_traces(vlib.read_ndjson(vlib.workdir(PID) + "/trace_%s.ndjson" % tag)):
             nem += sum(len(e.get("emit") or []) for e in t)
     o.extra["emissions_observed"] = nem
